@@ -57,6 +57,17 @@ type Prog struct {
 	// Order[i] lists the definition indices of file i in source order (nil =
 	// ascending).
 	Order [][]int
+	// Names[i] is the index used in the name of definition i (nil = i): two
+	// definitions in different files may share one bare name.
+	Names []int
+}
+
+// NameOf returns the name of definition i in p.
+func (p *Prog) NameOf(i int) string {
+	if p.Names != nil {
+		return Name(p.Names[i])
+	}
+	return Name(i)
 }
 
 // Name of definition i.
@@ -69,9 +80,9 @@ func Path(i int) string { return fmt.Sprintf("/m/f%d.thrift", i) }
 
 func (p *Prog) qual(from, def int) string {
 	if p.Defs[def].File == from {
-		return Name(def)
+		return p.NameOf(def)
 	}
-	return fileName(p.Defs[def].File) + "." + Name(def)
+	return fileName(p.Defs[def].File) + "." + p.NameOf(def)
 }
 
 func (p *Prog) tref(from int, t TRef) string {
@@ -123,23 +134,23 @@ func (p *Prog) Render() map[string]string {
 			d := p.Defs[i]
 			switch d.Kind {
 			case Typedef:
-				fmt.Fprintf(&sb, "typedef %s %s\n", p.tref(f, d.Type), Name(i))
+				fmt.Fprintf(&sb, "typedef %s %s\n", p.tref(f, d.Type), p.NameOf(i))
 			case Struct:
 				def := ""
 				if d.Val.Kind != "none" && d.Val.Kind != "" {
 					def = " = " + p.vref(f, d.Val)
 				}
-				fmt.Fprintf(&sb, "struct %s { 1: optional %s f%s }\n", Name(i), p.tref(f, d.Type), def)
+				fmt.Fprintf(&sb, "struct %s { 1: optional %s f%s }\n", p.NameOf(i), p.tref(f, d.Type), def)
 			case Enum:
-				fmt.Fprintf(&sb, "enum %s { A = 1, B = 5 }\n", Name(i))
+				fmt.Fprintf(&sb, "enum %s { A = 1, B = 5 }\n", p.NameOf(i))
 			case Const:
-				fmt.Fprintf(&sb, "const %s %s = %s\n", p.tref(f, d.Type), Name(i), p.vref(f, d.Val))
+				fmt.Fprintf(&sb, "const %s %s = %s\n", p.tref(f, d.Type), p.NameOf(i), p.vref(f, d.Val))
 			case Service:
 				ext := ""
 				if d.Parent >= 0 {
 					ext = " extends " + p.qual(f, d.Parent)
 				}
-				fmt.Fprintf(&sb, "service %s%s { %s fn(1: %s a) }\n", Name(i), ext, p.tref(f, d.Type), p.tref(f, d.Type))
+				fmt.Fprintf(&sb, "service %s%s { %s fn(1: %s a) }\n", p.NameOf(i), ext, p.tref(f, d.Type), p.tref(f, d.Type))
 			}
 		}
 		out[Path(f)] = sb.String()
@@ -190,9 +201,9 @@ func (p *Prog) typeRepr(from int, t TRef) (string, error) {
 		}
 		d := p.Defs[t.Def]
 		if !isType(d.Kind) {
-			return "", invalid{Name(t.Def) + " is not a type"}
+			return "", invalid{p.NameOf(t.Def) + " is not a type"}
 		}
-		s = fmt.Sprintf("%s:%s(%s)", Path(d.File), Name(t.Def), d.Kind)
+		s = fmt.Sprintf("%s:%s(%s)", Path(d.File), p.NameOf(t.Def), d.Kind)
 	}
 	if t.List {
 		s = "list<" + s + ">"
@@ -213,7 +224,7 @@ func (p *Prog) root(from int, t TRef, seen map[int]bool) (TRef, int, error) {
 	}
 	d := p.Defs[t.Def]
 	if !isType(d.Kind) {
-		return t, from, invalid{Name(t.Def) + " is not a type"}
+		return t, from, invalid{p.NameOf(t.Def) + " is not a type"}
 	}
 	if d.Kind != Typedef {
 		return t, from, nil
@@ -267,9 +278,9 @@ func (p *Prog) castValue(from int, v VRef, tfrom int, t TRef, depth int) (string
 			if d.Kind == Enum {
 				switch v.Int {
 				case 1:
-					return fmt.Sprintf("item:%s:%s.A=1", Path(d.File), Name(rt.Def)), nil
+					return fmt.Sprintf("item:%s:%s.A=1", Path(d.File), p.NameOf(rt.Def)), nil
 				case 5:
-					return fmt.Sprintf("item:%s:%s.B=5", Path(d.File), Name(rt.Def)), nil
+					return fmt.Sprintf("item:%s:%s.B=5", Path(d.File), p.NameOf(rt.Def)), nil
 				}
 				return "", invalid{"no such enum value"}
 			}
@@ -288,17 +299,21 @@ func (p *Prog) castValue(from int, v VRef, tfrom int, t TRef, depth int) (string
 		if e.Kind != Enum {
 			return "", invalid{"item of non-enum"}
 		}
+		if !rt.List && (rt.Base == "i32" || rt.Base == "i64") {
+			// an enum item may stand where an integer is expected
+			return fmt.Sprintf("item:%s:%s.A=1", Path(e.File), p.NameOf(v.Def)), nil
+		}
 		if rt.List || rt.Base != "" || rt.Def != v.Def {
 			return "", invalid{"enum item for another type"}
 		}
-		return fmt.Sprintf("item:%s:%s.A=1", Path(e.File), Name(v.Def)), nil
+		return fmt.Sprintf("item:%s:%s.A=1", Path(e.File), p.NameOf(v.Def)), nil
 	case "const":
 		if err := p.resolveDef(from, v.Def); err != nil {
 			return "", err
 		}
 		c := p.Defs[v.Def]
 		if c.Kind != Const {
-			return "", invalid{Name(v.Def) + " is not a constant"}
+			return "", invalid{p.NameOf(v.Def) + " is not a constant"}
 		}
 		// the referenced constant must itself be valid
 		if _, err := p.castValue(c.File, c.Val, c.File, c.Type, depth+1); err != nil {
@@ -349,11 +364,11 @@ func (p *Prog) Resolve() Expect {
 		if !reach[d.File] {
 			continue
 		}
-		head := fmt.Sprintf("%s:%s", Path(d.File), Name(i))
+		head := fmt.Sprintf("%s:%s", Path(d.File), p.NameOf(i))
 		switch d.Kind {
 		case Typedef:
 			if p.typeCycle(i, map[int]bool{}) {
-				return fail(invalid{"typedef cycle at " + Name(i)})
+				return fail(invalid{"typedef cycle at " + p.NameOf(i)})
 			}
 			tr, err := p.typeRepr(d.File, d.Type)
 			if err != nil {
@@ -418,7 +433,7 @@ func (p *Prog) Resolve() Expect {
 						break
 					}
 				}
-				par = fmt.Sprintf("%s:%s", Path(pd.File), Name(d.Parent))
+				par = fmt.Sprintf("%s:%s", Path(pd.File), p.NameOf(d.Parent))
 			}
 			lines = append(lines, fmt.Sprintf("service %s parent=%s fn(args[1 a %s] returns %s)", head, par, tr, tr))
 		}
